@@ -61,6 +61,20 @@ SepAnchor(a, b) ==
     THEN LET d == (a.t - b.t) % 3600 IN IF d > 1800 THEN 3600 - d ELSE d
   ELSE IF a.on = "axis" /\ b.on = "axis" THEN (IF a.t % 2 = b.t % 2 THEN 0 ELSE 1800)
   ELSE 900
+(* --- 2b. what the coordinate object carries besides the direction ---------------------- *)
+(* A sky position is a direction, and the transform is a function of the direction alone.   *)
+(* The coordinate objects the transforms take (ICRS / SDSSMuNu frames, SkyCoord) may carry   *)
+(* more than that: a DISTANCE (catalogue positions with parallaxes).  The image of an object *)
+(* with a distance is the image of its direction - for every stripe, in both directions, so  *)
+(* round trip, isometry and nu = 0 hold for such objects as they do for bare directions.     *)
+(* (Whether the result keeps the distance is left open; only directions are compared.)       *)
+(* Distances in eighths of a parsec, 0 = the object carries none: below, at and above the    *)
+(* unit of length - 1 is the length an unnormalised vector gets right by accident.           *)
+CarrierDist8 == {0, 1, 8, 20, 8000}          \* none; 1/8 pc; 1 pc; 2.5 pc; 1 kpc
+CarrierClasses == {"direction", "nearer", "unit", "farther", "mixed"}
+CarrierClass(d8) == IF d8 = 0 THEN "direction" ELSE IF d8 < 8 THEN "nearer" ELSE IF d8 = 8 THEN "unit" ELSE "farther"
+(* every anchor admits every carrier and its image does not depend on it *)
+CarriersFor(a) == CarrierDist8
 (* tolerance (nano-degrees) for a position produced by the transform: arcsin/arccos lose  *)
 (* half the digits within 0.1 deg of the poles of the output system                        *)
 PosTolNdeg(polar) == IF polar THEN 10000 ELSE 1
@@ -181,9 +195,38 @@ MixesOf(fn) == CASE fn = "gcirc" -> GcircMixes
                  [] fn = "cap_distance" -> {"all", "x", "cm", "points"}
                  [] fn \in {"radec_to_munu", "munu_to_radec"} -> {"all", "lon", "lat"}
                  [] OTHER -> {"all"}
+(* the float forms likewise per argument: all four, the RAs, the Decs, one point *)
+GcircFloatMixes == {"all", "ra", "dec", "p1", "p2"}
 MixAdmitsForm(m, f) == IF m \in {"pyint-ra", "pyint-dec"} THEN f = "pyint" ELSE (f = "pyint" => m = "all")
 FormIndependent(r) == /\ r.fn \in FormFns /\ r.form \in IntForms /\ r.mix \in MixesOf(r.fn) /\ MixAdmitsForm(r.mix, r.form)
                       /\ ~r.raised /\ ~r.nan /\ r.disc <= FormTol(r)
+
+(* --- floating-point forms ------------------------------------------------------------- *)
+(* float64 is the form the cases are stated in.  The same VALUES may be handed over in       *)
+(* single precision ("float32": the coordinates of many FITS catalogues) wherever every      *)
+(* coordinate of the case is exactly a single-precision number, and in extended precision    *)
+(* ("longdouble") always.  A coordinate b/8 + m/2^k is n/2^k with n = b 2^(k-3) + m; it is a  *)
+(* single-precision number when |n| < 2^24 (guarded so that nothing overflows 32 bits).      *)
+FloatForms == {"float32", "longdouble"}
+F32Exact(x, k) == x.m = 0 \/ x.b = 0 \/ (k <= 27 /\ AbsI(x.b) + 1 <= 2^(27 - k))
+DistFloatForms(c) == {"longdouble"} \cup
+                     (IF \A x \in {c.p.ra, c.p.dec, c.q.ra, c.q.dec} : F32Exact(x, c.k) THEN {"float32"} ELSE {})
+Precision(f) == IF f = "float32" THEN "single" ELSE "double"
+(* A single-precision INPUT cannot demand more than single precision (the answer may be      *)
+(* computed in either precision): never NaN, zero on the diagonal and the range are demanded *)
+(* of every such call (the range up to two roundings of the half turn to single precision,   *)
+(* 2^-23 = 120 ppb each); the value only where single-precision arithmetic resolves it well  *)
+(* - separations from 1 deg (1/8 rad) to 179 deg (3 rad), where cos(dec) and the arcsine of   *)
+(* the half distance are not the limiting terms - and there to 1e-4, symmetry to 1e-3.        *)
+SingleEpsPpb == 120
+SingleRangeSlackPpb == 2 * SingleEpsPpb
+SingleTolPpb == 100000
+SingleSymTolPpb == 1000000
+SingleDemand(p, q, u) ==
+  LET d == Dist(p, q, u) IN
+  IF u = 0 THEN d.b >= 1 /\ ELe(d, EA(24, 0)) ELSE d.b >= 8 /\ ELe(d, EA(1432, 0))
+(* the same for a record of a real call: sepdeg = whole degrees of the separation *)
+SingleDemandRec(r) == r.uas >= 1 /\ r.sepdeg >= 1 /\ r.sepdeg < 179
 
 (* Named deviation D-C18-1: the half-differences are formed AFTER each coordinate was      *)
 (* converted to radians, so they carry the rounding error of the radian values (~2e-16     *)
@@ -196,13 +239,25 @@ Dev_SubtractsRadiansRec(r) == r.sepbin < FineBin
 (* poles of the stripe's great circle (and at the celestial poles for mu,nu -> ra,dec)     *)
 Dev_ArcsinNotClipped(r) == r.nan /\ r.polar
 
+(* Named deviation D-C18-7: the rounded radian value of a pole can lie beyond pi/2          *)
+(* (float32(pi/2) > pi/2) where the cosine is negative; for nearly coincident pairs with a   *)
+(* point exactly at a pole - in single precision, or when the two declinations differ in     *)
+(* precision - the haversine comes out negative and the distance is NaN.  The deviation      *)
+(* admits NaN (and nothing else) for such pairs closer than 2^-5 deg in a form other than    *)
+(* float64 throughout.                                                                        *)
+Dev_NegativeHaversine(p, q, u, k) == (AtPole(p, u) \/ AtPole(q, u)) /\ ~GeBin(Dist(p, q, u), k, BigBin)
+Dev_NegativeHaversineRec(r) == r.single /\ r.colatbin = -99 /\ r.sepbin < BigBin /\ \E u \in 1..3 : r.nan[u]
+
 RelTolPpb == 1000           \* the statement's relative 1e-6, in parts per billion
 RangeSlackPpb == 1          \* [0, 180 deg] up to 1e-9 of the half turn (one rounding of the unit factor)
 ExpectedDist(c) ==
   LET d == Dist(c.p, c.q, c.units) IN
   [d |-> d, scale |-> OutScale(c.units), zero |-> (c.p = c.q),
    demand |-> DemandVector(c.p, c.q, c.units, c.k), tolppb |-> RelTolPpb, slackppb |-> RangeSlackPpb,
-   dev1 |-> Dev_SubtractsRadians(d, c.k), forms |-> DistForms(c), mixes |-> IF DistForms(c) = {} THEN {} ELSE GcircMixes]
+   dev1 |-> Dev_SubtractsRadians(d, c.k), forms |-> DistForms(c), mixes |-> IF DistForms(c) = {} THEN {} ELSE GcircMixes,
+   fforms |-> DistFloatForms(c), fprec |-> [f \in DistFloatForms(c) |-> Precision(f)], fmixes |-> GcircFloatMixes,
+   sdemand |-> SingleDemand(c.p, c.q, c.units), stolppb |-> SingleTolPpb, ssymppb |-> SingleSymTolPpb,
+   sslackppb |-> SingleRangeSlackPpb, dev7 |-> Dev_NegativeHaversine(c.p, c.q, c.units, c.k)]
 
 (* spec-level laws of the exact families *)
 DistCaseOK(c) == c.k >= KMin /\ PointOK(c.p, c.units) /\ PointOK(c.q, c.units) /\ Applicable(c.p, c.q, c.units) # {}
@@ -274,18 +329,24 @@ SelfHolds(r) == /\ r.fn \in {"gcirc", "cap_distance"} /\ r.rel \in SelfRels
 (*   sym      : |gcirc(p,q) - gcirc(q,p)| / larger, ppb                                    *)
 (*   hexact   : the hour and degree forms denote exactly the same points                   *)
 (*   uhd, urd : relative difference hours-vs-degrees, radians-vs-degrees results, ppb      *)
+(*   single   : the coordinates were handed over as single-precision (float32) arrays; the   *)
+(*              class attributes and the oracle are those of the single-precision VALUES      *)
 U3 == 1..3
 GcNeverNaN(r) == \A u \in U3 : ~r.nan[u]
-GcRange(r) == \A u \in U3 : ~r.neg[u] /\ r.over[u] <= RangeSlackPpb
+GcRangeSlack(r) == IF r.single THEN SingleRangeSlackPpb ELSE RangeSlackPpb
+GcRange(r) == \A u \in U3 : ~r.neg[u] /\ r.over[u] <= GcRangeSlack(r)
 GcZeroOnDiagonal(r) == r.ident => \A u \in U3 : r.zero[u]
-GcSymmetric(r) == \A u \in U3 : r.sym[u] <= RelTolPpb
-GcVecTriggered(r) == /\ r.uas >= 1
+GcSymmetric(r) == \A u \in U3 : r.sym[u] <= (IF r.single THEN SingleSymTolPpb ELSE RelTolPpb)
+GcVecTriggered(r) == IF r.single THEN SingleDemandRec(r) ELSE
+                     /\ r.uas >= 1
                      /\ Resolvable(r.samera, r.seam, r.sepbin >= BigBin, r.sepbin >= FineBin, r.colatbin >= FineBin)
-GcAgreesWithVector(r) == GcVecTriggered(r) => \A u \in U3 : r.vec[u] <= RelTolPpb
+GcVecTol(r) == IF r.single THEN SingleTolPpb ELSE RelTolPpb
+GcAgreesWithVector(r) == GcVecTriggered(r) => \A u \in U3 : r.vec[u] <= GcVecTol(r)
 (* the converted inputs are the same points only to ~1e-14 deg unless exact: demand the   *)
-(* agreement where that is below a tenth of the tolerance                                  *)
-GcUnitsHDTriggered(r) == GcVecTriggered(r) /\ (r.hexact \/ r.sepbin >= FineBin)
-GcUnitsRDTriggered(r) == GcVecTriggered(r) /\ r.sepbin >= FineBin
+(* agreement where that is below a tenth of the tolerance.  (Single-precision inputs of    *)
+(* the three conventions are different points: each is held to its own vector formula.)    *)
+GcUnitsHDTriggered(r) == ~r.single /\ GcVecTriggered(r) /\ (r.hexact \/ r.sepbin >= FineBin)
+GcUnitsRDTriggered(r) == ~r.single /\ GcVecTriggered(r) /\ r.sepbin >= FineBin
 GcUnitsAgree(r) == /\ GcUnitsHDTriggered(r) => r.uhd <= RelTolPpb
                    /\ GcUnitsRDTriggered(r) => r.urd <= RelTolPpb
 (* decade of the separation: number of decimal digits of uas (1..10); 0 below 1 uas *)
@@ -299,7 +360,9 @@ Digits(n) == IF n <= 0 THEN 0 ELSE 1 + Digits(n \div 10)
 (* same object had already been handed to.  The law is the same for every use: a transform *)
 (* is a function of the coordinates, so the result is compared with the coordinates the    *)
 (* object was BUILT from (for array objects disc is the largest element discrepancy).      *)
-MuNuHolds(r) == ~r.nan /\ r.disc <= PosTolNdeg(r.polar)
+(* carrier = what the object(s) handed to the transform carried besides the direction        *)
+(* (CarrierClasses; "mixed" = an isometry pair whose two objects differ in that).             *)
+MuNuHolds(r) == r.carrier \in CarrierClasses /\ ~r.nan /\ r.disc <= PosTolNdeg(r.polar)
 (* --- CallerObjectUnchanged: record "unch" = one call of fn (radec_to_munu, munu_to_radec, *)
 (* gcirc, angles_to_x, x_to_angles); same = the coordinate / argument arrays of the object  *)
 (* handed in are bit-identical after the call; array, use as above                           *)
